@@ -177,8 +177,8 @@ def cls_double_sign(case):
     operator bracket defect), which fparser cannot re-read or which is
     bracketed differently on the second write."""
     import re
-    if not re.search(r"[-+*/]\s*\(\s*-", case.get("source", "")):
-        return False
+    if not re.search(r"\(\s*-", case.get("source", "")):
+        return False          # no bracketed negative operand in the input
     if case.get("bucket", "").startswith("reread:FortranSyntaxError"):
         return True
     causes = explain_changes(case)
